@@ -344,7 +344,7 @@ def run(ctx):
             continue
         expected = [m for m in sent if sends.get(m, "ok") == "ok" and not all(s == 0 for s in sent[m])]
         missing = [m for m in expected if m not in seen]
-        refused = [x for x in r["records"] if x.get("ev") == "ret" and x.get("op") == "connect" and x.get("res", "ok") != "ok"]
+        refused = [x for x in r0["records"] if x.get("ev") == "ret" and x.get("op") == "connect" and x.get("res", "ok") != "ok"]
         if missing and refused:
             # no connection, nothing to judge: the pair is refused over this transport (inproc's own table, see C05-b)
             ctx.note("%s: not judged, connect() was refused (%s)" % (sc["name"], refused[0].get("res")))
